@@ -89,6 +89,26 @@ def _work(units):
     acc = progcheck.Acc()
     hs = seam.HashSeam()
     for u in units:
+        if u[0] == "crafted":
+            for k, v in crafted_vectors():
+                ws = ew.fr(v)
+                b = impl.build(rp.render(prog_for(v)))
+                if b[0] != "ok":
+                    acc.violation({"kind": "vector", "sub": "build", "text": rp.render(prog_for(v)), "observed": list(b)})
+                    continue
+                with hs:
+                    for kk in (k - 1, k, k + 1):
+                        if not (0 <= kk < 2**32):
+                            continue
+                        hs.k = kk
+                        acc.add("evaluations")
+                        out = impl.call(b[1], {"uid": "x"})
+                        ex = sem.part_exact(ws, kk)
+                        allowed = {ex} if sem.float_exact(ws, kk) else sem.part_allowed(ws, kk)
+                        if out[0] != "ok" or out[1] not in {f"g{i}" for i in allowed}:
+                            acc.violation({"kind": "grid", "sub": "eval", "text": rp.render(prog_for(v)), "k": kk, "weights": v, "observed": short(repr(out)),
+                                           "why": f"position k={kk}: exact group {ex}, acceptable {sorted(allowed)} (boundary a quarter grid point after k={k})"})  # fmt: skip
+            continue
         if u[0] == "hashtwins":
             for a, b in hash_twin_vectors():
                 for v in (a, b, a):
@@ -123,6 +143,18 @@ def hash_twin_vectors():
         out.append(([f, "1"], [i, "1"]))
         out.append(([i, "1", "2"], [f, "1", "2"]))
     out.append((["0.5", "1"], ["1152921504606846976", "1"]))  # hash(0.5) == hash(2**60)
+    return out
+
+
+def crafted_vectors():
+    """integer vectors with total 2^34 whose first boundary lies a quarter grid point after a chosen position k
+    (exact in binary64): the unit AT k belongs to the first group, however many further digest bits exist"""
+    out = []
+    for k in (1, 12345, 2**31, 2**32 - 5, 858993459):
+        for first, last in ((4 * k + 1, 4), (4 * k + 2, 1), (4 * k + 3, 2)):
+            mid = 2**34 - first - last
+            if first > 0 and mid > 0:
+                out.append((k, [str(first), str(mid), str(last)]))
     return out
 
 
@@ -179,6 +211,7 @@ def run(res, tier):
     units += [(v, 8, 64) for v in special_vectors()]
     units += [(v, 10, 256, labels) for v, labels in REPEATS]
     units.append(("hashtwins",))
+    units.append(("crafted",))
     for w in pmap(_work, permuted(units, "c03"), chunk=8):
         res.merge_worker(w)
     witness_check(res)
